@@ -67,7 +67,7 @@ var c04TagTemplates = map[string]string{
 	"break":    "{% for x in arr %}{{ x }}{% if forloop.index == 2 %}{% break %}{% endif %}{% endfor %}",
 	"continue": "{% for x in arr %}{% if forloop.first %}{% continue %}{% endif %}{{ x }}{% endfor %}",
 	"cycle":    "{% for x in arr %}{% cycle 'a', 'b', 'c' %}{% cycle 'g': '1', '2' %}{% endfor %}",
-	"include":  "{% include 'c04/inc.html' %}|{% for i in (1..2) %}{% include 'c04/inc.html' %}{% endfor %}",
+	"include":  "{% include 'inc.html' %}|{% for i in (1..2) %}{% include 'inc2.html' %}{% endfor %}{% include 'inc3.html' %}",
 }
 
 func c04FilterTemplate(name string) string {
@@ -126,11 +126,20 @@ func runC04(c *core.Ctx) {
 
 func c04Round(c *core.Ctx, round int) {
 	r := c.Rand(round)
-	e := liquid.NewEngine()
-	e.RegisterTag("vyield", func(render.Context) (string, error) { runtime.Gosched(); return "", nil })
-	if _, err := e.ParseTemplateAndCache([]byte("[inc {{ n }}{% for q in (1..2) %}{% cycle 'x', 'y' %}{% endfor %}]"), "c04/inc.html", 1); err != nil {
-		panic(err)
+	mkEngine := func() *liquid.Engine {
+		e := liquid.NewEngine()
+		e.RegisterTag("vyield", func(render.Context) (string, error) { runtime.Gosched(); return "", nil })
+		for _, inc := range []string{"c04/inc.html", "c04/inc2.html", "c04/inc3.html"} {
+			if _, err := e.ParseTemplateAndCache([]byte("[inc "+inc+" {{ n }}{% for q in (1..2) %}{% cycle 'x', 'y' %}{% endfor %}]"), inc, 1); err != nil {
+				panic(err)
+			}
+		}
+		return e
 	}
+	// e is the engine under test: after configuration it is touched by the concurrent phase first, so that
+	// anything initialised lazily is initialised under contention. twin is an identically configured engine
+	// that provides the single-threaded results.
+	e, twin := mkEngine(), mkEngine()
 	// configuration phase is over; from here on the engine is only used
 	filters, tags, blocks := engineNames(e)
 	if len(filters) == 0 { // the tables could not be read by reflection (renamed fields): use the static lists
@@ -184,21 +193,31 @@ func c04Round(c *core.Ctx, round int) {
 	if !c.Begin(fmt.Sprintf("round %d: %d templates", round, len(srcs))) {
 		return
 	}
+	// the include template must really include (a wrong path would only ever exercise the error path)
+	if probe := core.RunAt(twin, c04TagTemplates["include"], "c04/top.html", 1, b); !probe.OK() {
+		c.Violate("harness|include-template-fails", "the include template of the concurrency workload does not render on the twin engine", map[string]any{"observed": probe.Brief()})
+	}
 	// ---- sequential baseline (before) ----------------------------------------------------------
 	tpls := make([]*liquid.Template, len(srcs))
 	parseBase := make([]core.Res, len(srcs))
 	base := make([]core.Res, len(srcs))
 	for i, s := range srcs {
-		t, pr := core.Parse(e, s, "c04/top.html", 1)
+		t, pr := core.Parse(twin, s, "c04/top.html", 1)
 		parseBase[i] = pr
 		if pr.OK() {
-			tpls[i] = t
 			base[i] = core.Render(t, b)
+			if i%2 == 0 {
+				// half of the templates are parsed on e beforehand (the same *Template is then shared by all goroutines);
+				// the other half is first parsed on e inside the concurrent phase
+				tpls[i], _ = core.Parse(e, s, "c04/top.html", 1)
+			}
 		} else {
 			base[i] = pr
 		}
 	}
 	verifhook.SetBudget(0)
+	verifhook.SetConcurrent(true) // hooks must not synchronise the goroutines under test (see verifhook)
+	defer verifhook.SetConcurrent(false)
 	// ---- concurrent phase ---------------------------------------------------------------------------
 	t0 := time.Now()
 	var opsMu sync.Mutex
@@ -225,8 +244,11 @@ func c04Round(c *core.Ctx, round int) {
 						kind := gr.Intn(6)
 						op := c04op{g: g, tpl: i, call: int64(time.Since(t0))}
 						var res core.Res
+						if tpls[i] == nil { // not parsed on e yet: parse it here, under contention
+							kind = []int{3, 0}[kind%2]
+						}
 						switch {
-						case kind == 0 || tpls[i] == nil:
+						case kind == 0:
 							op.kind = "Parse"
 							_, res = core.Parse(e, srcs[i], "c04/top.html", 1)
 							if res.OK() {
@@ -278,8 +300,10 @@ func c04Round(c *core.Ctx, round int) {
 		var again core.Res
 		if tpls[i] != nil {
 			again = core.Render(tpls[i], b)
+		} else if t, pr := core.Parse(e, s, "c04/top.html", 1); pr.OK() {
+			again = core.Render(t, b)
 		} else {
-			_, again = core.Parse(e, s, "c04/top.html", 1)
+			again = pr
 		}
 		if !again.Same(base[i]) {
 			c.Violate("sequential-after-differs", "after the concurrent phase a template no longer renders as before it", map[string]any{"source": s, "before": base[i].Brief(), "after": again.Brief()})
